@@ -15,6 +15,11 @@ static BUILTIN_SCALAR_NAMES: Lazy<[Ty; 5]> = Lazy::new(|| {
     ]
 });
 
+/// How many times the generation of a type recurses at most, which bounds the
+/// number of list and non-null wrappers around the named type. The parser
+/// rejects a document whose types, values or selection sets nest too deep.
+const MAX_TY_DEPTH: usize = 10;
+
 /// Convenience Type_ implementation used when creating a Field.
 /// Can be a `NamedType`, a `NonNull` or a `List`.
 ///
@@ -91,12 +96,12 @@ impl Ty {
 impl DocumentBuilder<'_> {
     /// Create an arbitrary `Ty`
     pub fn ty(&mut self) -> ArbitraryResult<Ty> {
-        self.generate_ty(true)
+        self.generate_ty(true, 0)
     }
 
     /// Choose an arbitrary existing `Ty` given a slice of existing types
     pub fn choose_ty(&mut self, existing_types: &[Ty]) -> ArbitraryResult<Ty> {
-        self.choose_ty_given_nullable(existing_types, true)
+        self.choose_ty_given_nullable(existing_types, true, 0)
     }
 
     /// Choose an arbitrary existing named `Ty` given a slice of existing types
@@ -113,8 +118,16 @@ impl DocumentBuilder<'_> {
         &mut self,
         existing_types: &[Ty],
         is_nullable: bool,
+        depth: usize,
     ) -> ArbitraryResult<Ty> {
-        let ty: Ty = match self.u.int_in_range(0..=2usize)? {
+        // A named type ends the recursion: at the maximum depth it is the
+        // only choice left.
+        let kind = if depth >= MAX_TY_DEPTH {
+            0
+        } else {
+            self.u.int_in_range(0..=2usize)?
+        };
+        let ty: Ty = match kind {
             // Named type
             0 => {
                 let used_type_names: Vec<&Ty> = existing_types
@@ -125,17 +138,21 @@ impl DocumentBuilder<'_> {
                 self.u.choose(&used_type_names)?.to_owned().clone()
             }
             // List type
-            1 => Ty::List(Box::new(
-                self.choose_ty_given_nullable(existing_types, true)?,
-            )),
+            1 => Ty::List(Box::new(self.choose_ty_given_nullable(
+                existing_types,
+                true,
+                depth + 1,
+            )?)),
             // Non Null type
             2 => {
                 if is_nullable {
-                    Ty::NonNull(Box::new(
-                        self.choose_ty_given_nullable(existing_types, false)?,
-                    ))
+                    Ty::NonNull(Box::new(self.choose_ty_given_nullable(
+                        existing_types,
+                        false,
+                        depth + 1,
+                    )?))
                 } else {
-                    self.choose_ty_given_nullable(existing_types, is_nullable)?
+                    self.choose_ty_given_nullable(existing_types, is_nullable, depth + 1)?
                 }
             }
             _ => unreachable!(),
@@ -144,18 +161,23 @@ impl DocumentBuilder<'_> {
         Ok(ty)
     }
 
-    fn generate_ty(&mut self, is_nullable: bool) -> ArbitraryResult<Ty> {
-        let ty = match self.u.int_in_range(0..=2usize)? {
+    fn generate_ty(&mut self, is_nullable: bool, depth: usize) -> ArbitraryResult<Ty> {
+        let kind = if depth >= MAX_TY_DEPTH {
+            0
+        } else {
+            self.u.int_in_range(0..=2usize)?
+        };
+        let ty = match kind {
             // Named type
             0 => Ty::Named(self.name()?),
             // List type
-            1 => Ty::List(Box::new(self.generate_ty(true)?)),
+            1 => Ty::List(Box::new(self.generate_ty(true, depth + 1)?)),
             // Non Null type
             2 => {
                 if is_nullable {
-                    Ty::NonNull(Box::new(self.generate_ty(false)?))
+                    Ty::NonNull(Box::new(self.generate_ty(false, depth + 1)?))
                 } else {
-                    self.generate_ty(is_nullable)?
+                    self.generate_ty(is_nullable, depth + 1)?
                 }
             }
             _ => unreachable!(),
